@@ -54,6 +54,20 @@ def ambiguous_key_model():
     return lsl.GraphBuilder().add(y).build_model()
 
 
+def optional_none_model():
+    """a model with an optional hyper-parameter whose value is None ("no cap") and a node that returns None while the cap is absent"""
+    import liesel.model as lsl
+    import tensorflow_probability.substrates.jax.distributions as tfd
+    cap = lsl.Value(None, _name="cap")
+    beta = lsl.param(jnp.array([0.4, -0.3]), lsl.Dist(tfd.Normal, loc=0.0, scale=2.0), name="beta")
+    X = jnp.array([[1.0, 0.5], [1.0, -1.0], [1.0, 2.0]])
+    mu = lsl.Var(lsl.Calc(lambda b, c: X @ b if c is None else jnp.minimum(X @ b, c), beta, cap), name="mu")
+    slack = lsl.Value(0.0, _name="slack_in")
+    gap = lsl.Calc(lambda c, m: None if c is None else c - jnp.max(m), cap, mu, _name="gap")
+    y = lsl.obs(jnp.array([0.3, 0.9, 1.1]), lsl.Dist(tfd.Normal, loc=mu, scale=1.0), name="y")
+    return lsl.GraphBuilder().add(y, gap, slack).build_model()
+
+
 def _reg_goose():
     return regression_with_report()
 
@@ -73,13 +87,15 @@ SCENARIOS = {
     # a position may hold real values for a node that was initialised with integers: they are assigned as they are (no cast back)
     "int-initialised node in the position": (int_exposure_model, ["exposure", "rate"], ["exposure"], False),
     "key that names a node and a variable": (ambiguous_key_model, ["w"], ["w"], False),
+    # an optional input that is None in the incoming state, after an earlier call that supplied it
+    "optional None-valued input": (optional_none_model, ["cap"], ["beta"], False, {"cap": jnp.asarray(0.8)}),
 }
 
 
 def liesel_scenario(chk, name):
     import liesel.goose as gs
     import liesel.model as lsl
-    build, keys1, keys2, same = SCENARIOS[name]
+    build, keys1, keys2, same, *p1_over = SCENARIOS[name]
     import warnings
     model = build()
     if "auto_update=False" in name:
@@ -120,12 +136,12 @@ def liesel_scenario(chk, name):
         return None
     strong = [k for k in M.strong_names(model)]
     vals0 = M.values_of(st0)
-    free = [k for k in strong if np.asarray(vals0[k]).dtype.kind == "f" and not M.is_concrete_name(k)]
+    free = [k for k in strong if k in vals0 and np.asarray(vals0[k]).dtype.kind == "f" and not M.is_concrete_name(k)]
     s_ex = {k: jnp.asarray(vals0[k]) for k in free}
 
     def getpos(keys, off):
         return {k: jnp.asarray(used.extract_position([k], st0)[k]) + off for k in keys}
-    p1_ex, p2_ex = getpos(keys1, 0.1), getpos(keys2, 0.2)
+    p1_ex, p2_ex = (dict(p1_over[0]) if p1_over else getpos(keys1, 0.1)), getpos(keys2, 0.2)
     mutated = []
 
     def f(p1, sv1, p2, sv2):
@@ -306,7 +322,7 @@ def simple_interfaces(chk):
 def main():
     chk = Check("C03")
     names = list(SCENARIOS) if chk.tier == "thorough" else ["regression+report/same-state", "regression+report/node-names", "weak-hierarchy", "user-supplied totals", "auto_transform",
-                                                             "regression+report/GooseModel", "regression+report/GooseModel/auto_update=False", "regression+report/auto_update=False", "int-initialised node in the position", "key that names a node and a variable"]
+                                                             "regression+report/GooseModel", "regression+report/GooseModel/auto_update=False", "regression+report/auto_update=False", "int-initialised node in the position", "key that names a node and a variable", "optional None-valued input"]
     obs = []
     for nm in names:
         res = chk.guarded(f"{nm}:trace", f"[{nm}] tracing the interface calls", liesel_scenario, chk, nm)
